@@ -502,11 +502,14 @@ def _symmetric_closure(ctx: Ctx, fi: FuncInfo, pm, node, it, kind) -> Optional[s
         return None
     D, k = outer.iter.func.value.id, norm(outer.target.elts[0])
     v = norm(node.target)
+    empties = {f'{D}[{v}] = set()', f'{D}[{v}] = list()', f'{D}[{v}] = []', f'{D}[{v}] = frozenset()', f'{D}[{v}] = ()'}
     for st in node.body:
         src = norm(st)
         if src == f'{D}[{v}].add({k})':
             continue
-        if isinstance(st, ast.If) and norm(st.test) == f'{v} not in {D}' and not st.orelse and [norm(x) for x in st.body] == [f'{D}[{v}] = set()']:
+        if isinstance(st, ast.If) and not st.orelse and isinstance(st.test, ast.Constant) and not st.test.value:
+            continue                            # dead branch
+        if isinstance(st, ast.If) and norm(st.test) == f'{v} not in {D}' and not st.orelse and len(st.body) == 1 and norm(st.body[0]) in empties:
             continue
         return None
     # D must not be iterated anywhere else in the function
